@@ -13,6 +13,44 @@ pub fn cli_truncate(ctx: &mut Ctx) {
     ctx.rule = "archives written by `pna create` (store/zstd, plain/solid, 3-6 files of 0..3000 bytes) as a single file and as a part set (--split 900): prefixes = {cut at a random byte, at every chunk-like boundary sample, \
                 exactly at the end of part k with part k+1 absent, with part k+1 empty, with part k+1 cut}; `pna list`, `pna list --solid`, `pna extract` on the first part: exit status must be an error, never a crash or a hang; \
                 files extracted before the error are byte-identical to source files".into();
+    // an archive with hard-link entries (written with the library: `pna create` stores hard-linked files as files), cut inside the
+    // last chunks: every entry that lies wholly before the cut is extracted — the hard links, which the extractor defers, as well
+    {
+        use libpna::{Archive, EntryBuilder, EntryName, EntryReference, WriteOptions};
+        use std::io::Write;
+        let sbx = Sbx::new("ctrunc-hl", 0);
+        let mut a = Archive::write_header(Vec::new()).unwrap();
+        for (n, c) in [("o1.txt", &b"origin one"[..]), ("d/o2.txt", &b"origin two"[..])] {
+            let mut b = EntryBuilder::new_file(EntryName::from(n), WriteOptions::store()).unwrap();
+            b.write_all(c).unwrap();
+            a.add_entry(b.build().unwrap()).unwrap();
+        }
+        a.add_entry(EntryBuilder::new_hard_link(EntryName::from("h1.txt"), EntryReference::from("o1.txt")).unwrap().build().unwrap()).unwrap();
+        a.add_entry(EntryBuilder::new_hard_link(EntryName::from("d/h2.txt"), EntryReference::from("o2.txt")).unwrap().build().unwrap()).unwrap();
+        let mut b = EntryBuilder::new_file(EntryName::from("last.txt"), WriteOptions::store()).unwrap();
+        b.write_all(b"the last entry").unwrap();
+        a.add_entry(b.build().unwrap()).unwrap();
+        let full = a.finalize().unwrap();
+        let ends = crate::fam_frame::item_ends(&full);
+        for cut in [full.len() - 6, full.len() - 1, ends[ends.len() - 1] - 3, ends[3] + 5] {
+            let _ = std::fs::remove_dir_all(sbx.path("o"));
+            std::fs::write(sbx.path("h.pna"), &full[..cut]).unwrap();
+            let r = run_pna(&sbx, &sbx.root, &["--quiet", "extract", "h.pna", "--out-dir", "o"], None, 30, &[]);
+            ctx.oracle_eval();
+            ctx.count("prefix:archive-with-hard-links");
+            let attrs = json!({"archive":"o1.txt, d/o2.txt, hard links h1.txt -> o1.txt and d/h2.txt -> o2.txt, last.txt","len":full.len(),"cut":cut,"run":r.brief()});
+            if r.crashed() || r.hung() { ctx.violation("C06", "a command crashed or hung on a proper prefix of an archive", attrs.clone()); ctx.violation("C07", "a command crashed or hung on a truncated archive", attrs); continue; }
+            if r.ok() { ctx.violation("C06", "a proper prefix of an archive (or of a multipart sequence) was read with exit status 0", attrs.clone()); }
+            let complete = ends.iter().filter(|e| **e <= cut).count();
+            let names = ["o1.txt", "d/o2.txt", "h1.txt", "d/h2.txt", "last.txt"];
+            let missing: Vec<&str> = names.iter().take(complete).filter(|n| !sbx.path("o").join(n).exists()).copied().collect();
+            let extra: Vec<&str> = names.iter().skip(complete).filter(|n| std::fs::metadata(sbx.path("o").join(n)).map(|m| m.len() > 0).unwrap_or(false) && **n != "last.txt").copied().collect();
+            if !missing.is_empty() || !extra.is_empty() {
+                ctx.violation("C06", "extraction of a truncated archive did not produce exactly the entries that lie wholly before the cut", json!({"case":attrs,"complete_entries":complete,"missing":missing,"unexpected":extra}));
+            }
+        }
+        ctx.case_free();
+    }
     let n = if ctx.thorough { 60 } else { 8 };
     for case in 0..n {
         let sbx = Sbx::new("ctrunc", case);
